@@ -416,22 +416,34 @@ Definition codec_of_id (z : Z) : option (option codec) :=
   else if z =? 3 then Some (Some Bzip2) else if z =? 4 then Some (Some Xz) else None.
 
 (* ---- the reference the property instance is judged against: a plain association list
-   (bucket, key) -> records (None = content not specified by the property: raw text or a copy),
-   and the list of buckets something was ever put into ---- *)
+   (bucket, key) -> (records, codec the bytes are encoded with, some line is not JSON), and the
+   list of buckets something was ever put into. What a read must give follows from the
+   documentation: the records, if every line is JSON and the key names the codec of the bytes or
+   no codec at all (then the signature of the bytes decides); an error otherwise. ---- *)
 Definition rslot := (list N * list N)%type.
-Definition rstate := (list (rslot * option (list J)) * list (list N))%type.
+Definition rcontent := (list J * Z * bool)%type.
+Definition rstate := (list (rslot * rcontent) * list (list N))%type.
 Definition slot_is (b k : list N) (s : rslot) : bool := list_eqb b (fst s) && list_eqb k (snd s).
-Definition r_lookup (rf : rstate) (b k : list N) : option (option (list J)) :=
+Definition r_lookup (rf : rstate) (b k : list N) : option rcontent :=
   match find (fun e => slot_is b k (fst e)) (fst rf) with Some e => Some (snd e) | None => None end.
 Definition r_remove (rf : rstate) (b k : list N) : rstate :=
   (filter (fun e => negb (slot_is b k (fst e))) (fst rf), snd rf).
-Definition r_set (rf : rstate) (b k : list N) (c : option (list J)) : rstate :=
+Definition r_set (rf : rstate) (b k : list N) (c : rcontent) : rstate :=
   let rf' := r_remove rf b k in
   (fst rf' ++ [((b, k), c)], if mem_key b (snd rf) then snd rf else b :: snd rf).
 Definition r_bucket (rf : rstate) (b : list N) : option (list (list N)) :=
   if mem_key b (snd rf) then
     Some (map (fun e => snd (fst e)) (filter (fun e => list_eqb b (fst (fst e))) (fst rf)))
   else None.
+(* None = no such object; Some None = the read must fail; Some (Some rs) = these records *)
+Definition r_read (rf : rstate) (b k : list N) : option (option (list J)) :=
+  match r_lookup rf b k with
+  | None => None
+  | Some (rs, c, junk) =>
+      let kc := codec_id (writer_codec k) in
+      if negb junk && ((kc =? 0) || (kc =? c)) then Some (Some rs) else Some None
+  end.
+Definition item_is_junk (i : ditem) : bool := match i with DIJunk _ _ => true | _ => false end.
 
 Definition is_ok0 (o : J) : bool := match o with JL [t] => jtag_is "ok" t | _ => false end.
 Definition is_err (o : J) (e : string) : bool :=
@@ -451,14 +463,14 @@ Definition ops_step (ms : mstore) (next : nat) (recs : list J) (rf : rstate) (o 
                   | JL [t; JI z] => jtag_is "ok" t && (z =? Z.of_nat n)
                   | _ => false
                   end in
-      Some (ms', (next + n)%nat, recs ++ rs, r_set rf b k (Some rs), (good, good))
+      Some (ms', (next + n)%nat, recs ++ rs, r_set rf b k (rs, codec_id (writer_codec k), false), (good, good))
   | DRaw b k c items =>
       match raw_text items next, codec_of_id c with
       | Some (text, rs), Some oc =>
           let stored := match oc with Some cd => toy_enc cd text | None => text end in
           let good := is_ok0 out in
           Some (ms_put ms b k stored, (next + List.length rs)%nat, recs ++ rs,
-                r_set rf b k None, (good, good))
+                r_set rf b k (rs, c, existsb item_is_junk items), (good, good))
       | _, _ => None
       end
   | DDel b k =>
@@ -469,7 +481,7 @@ Definition ops_step (ms : mstore) (next : nat) (recs : list J) (rf : rstate) (o 
                | Some _ => is_ok0 out
                | None => is_err out "NotFound"
                end in
-      let rf' := match r_lookup rf sb sk with Some _ => r_set rf db dk None | None => rf end in
+      let rf' := match r_lookup rf sb sk with Some c => r_set rf db dk c | None => rf end in
       match ms_copy ms sb sk db dk with
       | Ok ms' => Some (ms', next, recs, rf', (is_ok0 out, p))
       | Err _ => Some (ms, next, recs, rf', (is_err out "NotFound", p))
@@ -495,10 +507,9 @@ Definition ops_step (ms : mstore) (next : nat) (recs : list J) (rf : rstate) (o 
                          (sig =? codec_id (magic_codec stored))
                      | _, _ => false
                      end in
-            let p := match r_lookup rf b k with
+            let p := match r_read rf b k with
                      | Some (Some rs) => jl_eqb back rs
-                     | Some None => true
-                     | None => false
+                     | _ => false
                      end in
             Some (ms, next, recs, rf, (a, p))
           else None
@@ -507,9 +518,9 @@ Definition ops_step (ms : mstore) (next : nat) (recs : list J) (rf : rstate) (o 
             match dec_err e with
             | Some ek =>
                 let a := match model with Err m => errkind_eqb m ek | Ok _ => false end in
-                let p := match r_lookup rf b k with
+                let p := match r_read rf b k with
                          | Some (Some _) => false
-                         | Some None => true
+                         | Some None => errkind_eqb ek InternalError
                          | None => errkind_eqb ek NotFound
                          end in
                 Some (ms, next, recs, rf, (a, p))
@@ -547,13 +558,12 @@ Definition ops_step (ms : mstore) (next : nat) (recs : list J) (rf : rstate) (o 
                       | None => false
                       | Some ks =>
                           let ms_ := expand_ref ks p in
-                          if forallb (fun k => match r_lookup rf b k with
-                                               | Some (Some _) => true | _ => false end) ms_
-                          then jl_eqb back (flat_map (fun k => match r_lookup rf b k with
-                                                               | Some (Some rs) => rs
-                                                               | _ => []
-                                                               end) ms_)
-                          else true
+                          forallb (fun k => match r_read rf b k with
+                                            | Some (Some _) => true | _ => false end) ms_ &&
+                          jl_eqb back (flat_map (fun k => match r_read rf b k with
+                                                          | Some (Some rs) => rs
+                                                          | _ => []
+                                                          end) ms_)
                       end in
             Some (ms, next, recs, rf, (a, pr))
           else None
@@ -565,9 +575,9 @@ Definition ops_step (ms : mstore) (next : nat) (recs : list J) (rf : rstate) (o 
                 let pr := match rb with
                           | None => errkind_eqb ek NotFound
                           | Some ks =>
-                              (* an error is allowed only when some matching object has no
-                                 specified content *)
-                              negb (forallb (fun k => match r_lookup rf b k with
+                              (* an error only when some matching object cannot be read *)
+                              errkind_eqb ek InternalError &&
+                              negb (forallb (fun k => match r_read rf b k with
                                                       | Some (Some _) => true | _ => false end)
                                             (expand_ref ks p))
                           end in
